@@ -190,7 +190,9 @@ fn get_highlight(line: &str, highlight_start: usize, highlight_end: usize) -> St
         // Since tab is only 1 character, we have to account for the extra 3 characters that are displayed
         // for each tab.
         let highlight_length = (highlight_end - highlight_start) + (highlight_tab_count * (EXPANDED_TAB.len() - 1));
-        style(format!("{:-<1$}", "", highlight_length)).yellow().bold()
+        // The dashes are built with `repeat`, because a width that's supplied through a format argument is limited to
+        // 16 bits: highlighting more than 65535 characters of a line would make `format!` panic.
+        style("-".repeat(highlight_length)).yellow().bold()
     };
 
     " ".repeat(whitespace_count) + &highlight.to_string()
